@@ -31,7 +31,7 @@ class Block(Node):
     def references(self) -> typing.Iterator["Symbol"]:
         """Get all the symbols that refer to this block."""
 
-        if not self.module:
+        if self.module is None:
             return
 
         symbol_set = self.module._symbol_referent_index.get(self)
